@@ -3,7 +3,7 @@ import json, os
 from vlib import core, graph
 
 
-def replay_graph(ctx, module, cfgf, project, gopkg, gocfg, tag, label, max_cover=None, nrandom=300, timeout=1500, tags=""):
+def replay_graph(ctx, module, cfgf, project, gopkg, gocfg, tag, label, max_cover=None, nrandom=300, timeout=1500, tags="", explore=0):
     d = ctx.specdir()
     g = os.path.join(d, tag + "_graph")
     r = ctx.design(module, cfgf, timeout=timeout, extra=["-dump", "dot,actionlabels", g], tag=tag, heap="8g")
@@ -24,10 +24,36 @@ def replay_graph(ctx, module, cfgf, project, gopkg, gocfg, tag, label, max_cover
         raise core.Infra("%s replayer did not finish:\n%s" % (tag, o[-3000:]))
     ctx.notes.setdefault("replays", []).append({"spec": module, "config": cfgf, "states": len(states), "edges": len(edges),
                                                 "edges_replayed": len({ei for w in walks for ei in w}), "behaviours": len(behs), "steps": stats[0]["steps"]})
+    semantic, nsched = 0, 0
+    if explore:
+        # shape-independent exploration of the same system: the specification's invariants on what is observable, under
+        # pseudo-random schedules that the specification does not steer
+        rc, o2 = ctx.go_test(gopkg, run="TestExplore", env={"VERIF_CFG": cfgp, "VERIF_N": explore}, tags=tags, timeout=timeout)
+        res2 = ctx.go_results(o2)
+        st2 = [x for x in res2 if x.get("kind") == "stat"]
+        if not st2:
+            raise core.Infra("%s exploration did not finish:\n%s" % (tag, o2[-3000:]))
+        ctx.notes.setdefault("explorations", []).append(dict(st2[0], config=cfgf))
+        nsched = st2[0]["schedules"]
+        for v in res2:
+            if v.get("kind") == "viol":
+                if v["key"] == "infra":
+                    raise core.Infra("%s exploration: %s" % (tag, v["what"]))
+                semantic += 1
+                ctx.violation(label + " " + v["key"], "[%s] %s" % (tag, v["what"]), {"config": cfgf, "schedule": v.get("schedule")})
+    shape = []
     for v in res:
         if v.get("kind") == "viol":
             if v["key"] == "infra":
                 raise core.Infra("%s replay: %s" % (tag, v["what"]))
             b = behs[v["case"]]
+            if explore and v["key"].startswith("shape "):
+                shape.append(v)
+                if not semantic:
+                    continue
             ctx.violation(label + " " + v["key"], "[%s] %s" % (tag, v["what"]), {"config": cfgf, "behaviour": {"init": b["init"], "steps": b["steps"][:v["step"] + 1]}})
+    if shape and not semantic:
+        # the code keeps the specification's invariants under every explored schedule but no longer takes the specification's
+        # steps: the specification has to be re-aligned before behaviours can be replayed. Not a verdict.
+        raise core.Infra("%s: the code no longer takes the specification's steps (%s); no invariant was broken in %d random schedules" % (tag, shape[0]["what"], nsched))
     return len(behs), stats[0]["steps"], behs
